@@ -13,7 +13,7 @@ Inductive err : Type :=
 | ESigAddr | EInOverflow | EOutOverflow2 | EInsufficientCoins | EDestroyCoins
 | ECoinHours | EInHoursOverflow | EInsufficientHours | ECollide
 | EDupOutAcross | EOutInPool | EDupTxn | EDoubleSpend | EUxHash
-| EStore | EInsertTwice | EOther.
+| EStore | EInsertTwice | EHistory | EOther.
 
 Inductive outcome : Type := Accepted | Rejected (e : err) | Crashed.
 
